@@ -197,9 +197,9 @@ pub fn c20() -> i32 {
     let mk = |class: String, detail: String, case: String| Violation { prop: "C20".into(), class, detail: format!("{} [{}]", detail, case), replay: json!({"engine":"enum-c20","case":case}) };
 
     // ---- convert round trips ----
-    let mut sizes: Vec<usize> = vec![0, 1, 511, 512, 513, 4095, 4096, 65535, 65536, 65537, 131072 + 512, 8 << 20, (8 << 20) + 512];
+    let mut sizes: Vec<usize> = vec![0, 1, 511, 512, 513, 4095, 4096, 65535, 65536, 65537, 131072 + 512, 8 << 20, (8 << 20) + 512, (8 << 20) + 1000];
     if thorough {
-        sizes.extend([(16 << 20) + 65536, 1000, 70000, (1 << 20) + 1]);
+        sizes.extend([(16 << 20) + 65536, 1000, 70000, (1 << 20) + 1, (16 << 20) + 1, (24 << 20) + 513]);
     }
     let cs = 65536usize;
     let jobs: Vec<(usize, &str)> = sizes.iter().flat_map(|s| ["zeros", "pattern", "sparse"].into_iter().map(move |k| (*s, k))).collect();
@@ -410,7 +410,7 @@ pub fn c20() -> i32 {
     let cov = json!({
         "evaluations": evals,
         "distinct_nontrivial": distinct.len(),
-        "rule": "convert: raw sizes {0,1,511,512,513,4095,4096,65535,65536,65537,128K+512,8M,8M+512,...} x contents {zeros, pattern, sparse} through rqcow2 convert raw->qcow2->raw (60 s timeout per step), output compared with the zero-padded input, intermediate image checked; format: sizes {1,64,65536} MB x cluster_bits x refcount_order through rqcow2 format -> independent checker; check: every consistent image (builder shapes with and without holes, flushed states of real histories) must pass Qcow2Dev::check() and rqcow2 check, and each copy with one free host cluster's refcount raised to 1 must be rejected (API: every position; CLI: first/middle/last)",
+        "rule": "convert: raw sizes {0,1,511,512,513,4095,4096,65535,65536,65537,128K+512,8M,8M+512,8M+1000 (several 8 MiB chunks, last block partial),...} x contents {zeros, pattern, sparse} through rqcow2 convert raw->qcow2->raw (60 s timeout per step), output compared with the zero-padded input, intermediate image checked; format: sizes {1,64,65536} MB x cluster_bits x refcount_order through rqcow2 format -> independent checker; check: every consistent image (builder shapes with and without holes, flushed states of real histories) must pass Qcow2Dev::check() and rqcow2 check, and each copy with one free host cluster's refcount raised to 1 must be rejected (API: every position; CLI: first/middle/last)",
         "samples": samples,
         "leak_images": leak_images,
         "consistent_images": images.len(),
